@@ -2,10 +2,18 @@ import IofloModel.Model.Flo
 /-
 The FloScript subset interpreted on top of `Model/Flo.lean`  (core Lean only).
 
-* store = integer valued shares `v0, v1, …` (field `value`)
+* store = integer valued shares `v0, v1, …` (field `value`), each with its time stamp (`Share.stamp`, `None`
+          until an action of a running framer updates the share) and its marks (`Share.marks[key]`:
+          `storing.Mark` with slots stamp / used / data)
 * store actions  — `put`/`set` (PokeDirect, GoalDirect), `inc … with` (IncDirect), `inc … from` (IncIndirect),
                    `copy` (PokeIndirect), the harness' recorder deed `rec` (returns its `ret` parameter)
-* needs          — `if v OP n`, `if v OP w`, `if v` (NeedDirect, NeedIndirect, NeedBoolean, `Need.Check` with
+* marker acts    — `MarkerUpdate` (as transit act: also sets `used`; as enact of the marked frame), `MarkerChange`;
+                   `NeedMarker._resolve` adds one transit marker act per `is updated` / `is changed` need to the
+                   need's transition or conditional-aux clause, and with `in frame …` one enact inserted first
+                   in the marked frame (the harness lays the acts out; the key of a mark is the number of the
+                   marked frame)
+* needs          — `v is updated [in frame f]` (NeedUpdate), `v is changed [in frame f]` (NeedChange),
+                   `if v OP n`, `if v OP w`, `if v` (NeedDirect, NeedIndirect, NeedBoolean, `Need.Check` with
                    tolerance 0), `elapsed OP t`, `recurred OP n` of a framer (the shares
                    `framer.<name>.state.elapsed/recurred`), `<tasker> is done` (NeedDone),
                    `<tasker> is <status>` (NeedStatus), each optionally negated (`Nact`)
@@ -34,6 +42,8 @@ inductive CAct
   | inc (dst : Nat) (v : Int)
   | incFrom (dst src : Nat)
   | copy (src dst : Nat)
+  | markU (sh key : Nat) (transit : Bool)   -- MarkerUpdate; `transit`: the act's context is the transit sub-context
+  | markC (sh key : Nat)                     -- MarkerChange
   deriving Repr
 
 inductive CNeed
@@ -48,6 +58,8 @@ inductive CNeed
   | auxAny (f : Fid)                 -- `any [in frame f] is done`  (NeedDoneAux over `frame.auxes`)
   | auxAll (f : Fid)                 -- `all [in frame f] is done`: `frame.auxes and all(…)` — falsy for no auxes
   | auxNamed (f : Fid) (x : Frid)    -- `x in frame f is done`: `x in frame.auxes` and `x.done`
+  | updated (sh key : Nat)           -- NeedUpdate
+  | changed (sh key : Nat)           -- NeedChange
   deriving Repr
 
 structure NeedC where
@@ -55,17 +67,56 @@ structure NeedC where
   need : CNeed
   deriving Repr
 
-abbrev World := Nat → Int
+/-- `storing.Mark`: the three slots start as `None` -/
+structure MarkSt where
+  stamp : Option Nat := none
+  used : Option Nat := none
+  data : Option Int := none
+  deriving Repr, Inhabited, DecidableEq
 
-def World.set (w : World) (i : Nat) (v : Int) : World := fun j => if j = i then v else w j
+structure World where
+  val : Nat → Int
+  stamp : Nat → Option Nat := fun _ => none          -- `share.stamp`
+  mark : Nat → Nat → MarkSt := fun _ _ => {}         -- `share.marks[key]`
 
-def CAct.run (a : CAct) (w : World) : World × Bool :=
+/-- `share.update(value=v)`: the value, then `stamp = store.stamp` -/
+def World.set (w : World) (i : Nat) (v : Int) (now : Nat) : World :=
+  { w with val := fun j => if j = i then v else w.val j,
+           stamp := fun j => if j = i then some now else w.stamp j }
+
+def World.setMark (w : World) (sh key : Nat) (m : MarkSt) : World :=
+  { w with mark := fun a b => if a = sh ∧ b = key then m else w.mark a b }
+
+def CAct.run (a : CAct) (now : Nat) (w : World) : World × Bool :=
   match a with
   | .record _ ret => (w, ret)
-  | .put dst v => (w.set dst v, false)
-  | .inc dst v => (w.set dst (w dst + v), false)
-  | .incFrom dst src => (w.set dst (w dst + w src), false)
-  | .copy src dst => (w.set dst (w src), false)
+  | .put dst v => (w.set dst v now, false)
+  | .inc dst v => (w.set dst (w.val dst + v) now, false)
+  | .incFrom dst src => (w.set dst (w.val dst + w.val src) now, false)
+  | .copy src dst => (w.set dst (w.val src) now, false)
+  | .markU sh key transit =>
+    -- `mark.stamp = self.store.stamp; if context == transit: mark.used = mark.stamp`
+    let m := w.mark sh key
+    (w.setMark sh key { m with stamp := some now, used := if transit then some now else m.used }, false)
+  | .markC sh key =>
+    -- `mark.data = storing.Data(share.items())`
+    (w.setMark sh key { w.mark sh key with data := some (w.val sh) }, false)
+
+/-- `NeedUpdate.action` -/
+def updatedNeed (w : World) (sh key : Nat) : Bool :=
+  match w.stamp sh with
+  | none => false                           -- `share.stamp is not None` fails
+  | some st =>
+    let m := w.mark sh key
+    match m.stamp with
+    | none => true
+    | some ms => decide (st > ms) || (st == ms && m.used != some ms)
+
+/-- `NeedChange.action` (the share has the one field `value`) -/
+def changedNeed (w : World) (sh key : Nat) : Bool :=
+  match (w.mark sh key).data with
+  | none => true
+  | some d => d != w.val sh
 
 def CNeed.eval (auxOf : Fid → List Frid) (n : CNeed) (frs : Frid → FramerSt) (w : World) : Bool :=
   match n with
@@ -73,9 +124,11 @@ def CNeed.eval (auxOf : Fid → List Frid) (n : CNeed) (frs : Frid → FramerSt)
   | .auxAll f => !(auxOf f).isEmpty && (auxOf f).all (fun x => (frs x).done)
   | .auxNamed f x => (auxOf f).contains x && (frs x).done
   | .always => true
-  | .cmpD sh op v => op.holds (w sh) v
-  | .cmpI a op b => op.holds (w a) (w b)
-  | .bool sh => w sh != 0
+  | .cmpD sh op v => op.holds (w.val sh) v
+  | .cmpI a op b => op.holds (w.val a) (w.val b)
+  | .bool sh => w.val sh != 0
+  | .updated sh key => updatedNeed w sh key
+  | .changed sh key => changedNeed w sh key
   | .elapsed fr op t => op.holds (Int.ofNat (frs fr).elapsed) (Int.ofNat t)
   | .recurred fr op n => op.holds (Int.ofNat (frs fr).recurred) (Int.ofNat n)
   | .done fr => (frs fr).done
@@ -86,9 +139,9 @@ def NeedC.eval (auxOf : Fid → List Frid) (n : NeedC) (frs : Frid → FramerSt)
 
 /-- the concrete semantics: ids index the two tables -/
 def concreteSem (acts : List CAct) (needs : List NeedC) (auxOf : Fid → List Frid) : Sem World :=
-  { act := fun id _ _ w => match acts[id]? with
-                           | some a => a.run w
-                           | none => (w, false),
+  { act := fun id _ now w => match acts[id]? with
+                             | some a => a.run now w
+                             | none => (w, false),
     need := fun id frs _ w => match needs[id]? with
                               | some n => n.eval auxOf frs w
                               | none => false }
@@ -157,6 +210,11 @@ def mkProg (frames : List FrameDef) (framers : List FramerDef) : Prog :=
 (the negation of `WF.unique`/`WF.nodup`, on the finite program) -/
 def sharedAux (frames : List FrameDef) : Bool :=
   Outline.hasDup (frames.flatMap (fun fd => fd.auxes ++ suspAuxes fd.preacts))
+
+/-- does some frame name the same auxiliary both in a plain `aux x` and in a conditional `aux x if …` clause?
+(region predicate of finding D3e; excluded by `WF.nodup`) -/
+def plainAndCond (frames : List FrameDef) : Bool :=
+  frames.any (fun fd => fd.auxes.any (fun a => (suspAuxes fd.preacts).contains a))
 
 def initSt (w : World) : St World :=
   { frs := fun _ => {}, world := w, now := 0, trace := [] }
